@@ -180,11 +180,14 @@ var c41menuRSA = []uint16{
 	TLS_RSA_WITH_RC4_128_SHA,                    // 5 RSA RC4 (grade)
 }
 
+// menu for an ECDSA certificate; bit positions mean the same as in the RSA menu where possible
 var c41menuEC = []uint16{
-	TLS_ECDHE_ECDSA_WITH_AES_128_GCM_SHA256, // 0
-	TLS_ECDHE_ECDSA_WITH_AES_128_CBC_SHA,    // 1
-	TLS_ECDHE_RSA_WITH_AES_128_GCM_SHA256,   // 2 needs an RSA certificate
-	TLS_RSA_WITH_AES_128_CBC_SHA,            // 3 needs an RSA certificate
+	TLS_ECDHE_ECDSA_WITH_AES_128_GCM_SHA256,       // 0 ECDSA GCM (TLS1.2 only)
+	TLS_ECDHE_ECDSA_WITH_CHACHA20_POLY1305_SHA256, // 1 ECDSA ChaCha (TLS1.2 only, rule flag)
+	TLS_ECDHE_ECDSA_WITH_AES_128_CBC_SHA,          // 2 ECDSA CBC
+	TLS_ECDHE_ECDSA_WITH_RC4_128_SHA,              // 3 ECDSA RC4 (grade)
+	TLS_RSA_WITH_AES_128_CBC_SHA,                  // 4 needs an RSA certificate
+	TLS_ECDHE_RSA_WITH_AES_128_GCM_SHA256,         // 5 needs an RSA certificate
 }
 
 const (
@@ -1068,6 +1071,12 @@ func (x *c41ctx) record(id string, s c41srv, conn int, o *c41obs) {
 		if o.sProto != "" {
 			r.Add("sum_completed_with_alpn", 1)
 		}
+		switch o.sSuite {
+		case 0xc007:
+			r.Add("sum_completed_ecdsa_rc4", 1)
+		case 0xc009, 0xc02b, 0xcca9:
+			r.Add("sum_completed_ecdsa_other", 1)
+		}
 	}
 	if o.cErr != nil && strings.Contains(o.cErr.Error(), "unadvertised ALPN") {
 		r.Outcome("std-client-refused-unadvertised-alpn")
@@ -1412,6 +1421,44 @@ func TestVerifC41(t *testing.T) {
 		return
 	}
 
+	// Family G — certificate key type x rule grade: {RSA, ECDSA P-256} x grade (rule with
+	// Chacha20) x version range (quick: 5 ranges) x preference / server order x client suite
+	// lists (all in default order, RC4 first, RC4 only, each ECDHE suite alone, RC4+CBC, the
+	// plain-RSA pair) x client max / hello version; every case is a full handshake followed by a
+	// resumption attempt (crypto/tls session cache, hand-marshalled ticket client).
+	gRanges := [][2]uint16{{0, 0}, {0, VersionTLS10}, {0, VersionTLS11}, {VersionTLS12, 0}, {VersionTLS11, VersionTLS11}}
+	if thorough {
+		gRanges = c41ranges()
+	}
+	gClasses := []int{allRSA, 1 << 3, 1 << 0, 1 << 1, 1 << 2, 1<<3 | 1<<2, 1<<5 | 1<<4}
+	for _, ec := range []bool{false, true} {
+		for _, g := range c41grades {
+			for _, rg := range gRanges {
+				for _, po := range [][2]int{{0, 0}, {1, 0}, {1, 1}} {
+					s := base
+					s.ec, s.grade, s.chacha, s.min, s.max, s.pref, s.rev = ec, g, true, rg[0], rg[1], po[0], po[1] == 1
+					sni := 0
+					if g != "" {
+						sni = 1
+					}
+					for _, css := range gClasses {
+						for _, cmax := range stdMax {
+							x.runStd("G", s, c41cli{max: cmax, suites: css, alpn: h2http, sni: sni, cache: true})
+						}
+						for _, hv := range []uint16{VersionSSL30, VersionTLS10, VersionTLS11, VersionTLS12} {
+							for _, rev := range []bool{false, true} {
+								x.runRaw("G", s, c41hcli{vers: hv, suites: css, rev: rev, alpn: h2http, sni: sni, resume: 2})
+							}
+						}
+					}
+				}
+			}
+			if stop() {
+				return
+			}
+		}
+	}
+
 	// Family A — ALPN: every ordered server list x every ordered client list over three protocols
 	// x (list on the Config / on the matching rule / rule present but not matching) x contexts in
 	// which h2 is and is not acceptable (TLS1.2+AEAD, TLS1.2+CBC, TLS1.1).
@@ -1515,8 +1562,9 @@ func TestVerifC41(t *testing.T) {
 		for _, g2 := range c41grades {
 			for _, cha := range [][2]bool{{false, false}, {true, false}, {false, true}} {
 				for _, rev := range []bool{false, true} { // reversed: the server prefers RC4
-					for _, c := range rclis {
+					for ci, c := range append(append([]rcli{}, rclis...), rclis...) {
 						s1, s2 := base, base
+						s1.ec, s2.ec = ci >= len(rclis), ci >= len(rclis) // second half: ECDSA certificate
 						s1.grade, s2.grade, s1.chacha, s2.chacha, s1.rev, s2.rev = g1, g2, cha[0], cha[1], rev, rev
 						// SSL3.0 sessions with a non-RC4 suite can be created on connection 1 and meet
 						// an RC4-only policy (grade B / Ssl3PoodleProofed) on connection 2
@@ -1624,11 +1672,16 @@ func TestVerifC41(t *testing.T) {
 		}
 	}
 
-	// Family E — ECDSA certificate: every server subset x client subset of the 4-suite EC menu x
-	// preference x client max version.
+	// Family E — ECDSA certificate: every server subset x client subset of the 6-suite EC menu
+	// (quick: of the sub-menu ECDSA-GCM / ECDSA-CBC / ECDSA-RC4 / ECDHE-RSA-GCM) x preference x
+	// client max version x client curves.
 	allEC := 1<<uint(len(c41menuEC)) - 1
+	inE := func(m int) bool { return thorough || m < 0 || m&(1<<1|1<<4) == 0 }
 	for ss := -1; ss <= allEC; ss++ {
 		for cs := 1; cs <= allEC; cs++ {
+			if !inE(ss) || !inE(cs) {
+				continue
+			}
 			for pref := 0; pref <= 2; pref++ {
 				for _, cmax := range []uint16{stdtls.VersionTLS11, stdtls.VersionTLS12, stdtls.VersionTLS13} {
 					for _, cv := range []int{0, 3} {
